@@ -396,3 +396,21 @@ B("c08-mask-before-selection", "C08", "R8.4",
 B("c08-rows-sorted", "C08", "R8.5", (MX, "            data = data[~incomplete_rows]\n", "            data = data[~incomplete_rows]\n            data = data.sort_index()\n"))
 B("c08-mask-from-other-frame", "C08", "R8.5", (MX, "            data = data[~incomplete_rows]\n", "            data = data.reset_index(drop=True)\n            data = data[~incomplete_rows]\n"))
 S("c08-benign-percentile", "C08", (TR, "            lower_bound = np.min(x)", "            lower_bound = np.percentile(x, 0)"))
+
+# ------------------------------------------------------------------ C02 R2.6 (expansion semantics)
+B("c02x-mul-drops-main-effect", "C02", "R2.6", (TT, "            terms = [self] + other.common_terms\n", "            terms = other.common_terms\n"))
+B("c02x-div-adds-rhs-main-effect", "C02", "R2.6", (TT, "            return Model(self, Term(*deepcopy(self.components), *deepcopy(other.components)))", "            return Model(self, other, Term(*deepcopy(self.components), *deepcopy(other.components)))"))
+B("c02x-pow-order-off-by-one", "C02", "R2.6", (TT, "list(p) for i in range(2, value + 1) for p in combinations(self.common_terms, i)", "list(p) for i in range(2, value) for p in combinations(self.common_terms, i)"))
+B("c02x-sub-model-keeps-group-terms", "C02", "R2.6", (TT, "                if term in self.group_terms:\n                    self.group_terms.remove(term)\n", ""))
+B("c02x-model-add-model-common-only", "C02", "R2.6", (TT, "        elif isinstance(other, type(self)):\n            for term in other.terms:\n                self.add_term(term)\n            return self", "        elif isinstance(other, type(self)):\n            for term in other.common_terms:\n                self.add_term(term)\n            return self"))
+B("c02x-x-minus-x-keeps-x", "C02", "R2.6", (TT, "            if self.components == other.components:\n                return Model()\n            else:\n                return self", "            if self.components == other.components:\n                return self\n            else:\n                return Model()"))
+B("c02x-interaction-model-model-uses-self-twice", "C02", "R2.6", (TT, "        if isinstance(other, type(self)):\n            products = product(self.common_terms, other.common_terms)\n            iterms = [\n                Term(*deepcopy(p[0].components), *deepcopy(p[1].components)) for p in products\n            ]\n            return Model(*iterms)",
+                                                                  "        if isinstance(other, type(self)):\n            products = product(self.common_terms, self.common_terms)\n            iterms = [\n                Term(*deepcopy(p[0].components), *deepcopy(p[1].components)) for p in products\n            ]\n            return Model(*iterms)"))
+B("c02x-term-or-sum-no-slopes-for-all", "C02", "R2.6", (TT, "            return Model(*intercepts, *slopes)", "            return Model(*intercepts, *slopes[:1])"), note="unmodelled slice -> analysis error is acceptable")
+VARIANTS.pop()
+B("c02x-term-or-sum-drops-intercepts", "C02", "R2.6", (TT, "            return Model(*intercepts, *slopes)", "            return Model(*slopes)"))
+B("c02x-model-div-term-uses-product", "C02", "R2.6", (TT, "            return self.add_term(\n                Term(*deepcopy(self.common_components), *deepcopy(other.components))\n            )", "            return self.add_term(other)"))
+B("c02x-response-drops-rhs-model", "C02", "R2.6", (TT, "        if isinstance(other, (Term, GroupSpecificTerm, Intercept)):\n            return Model(other, response=self)", "        if isinstance(other, (Term, GroupSpecificTerm, Intercept)):\n            return Model(response=self)"))
+B("c02x-plus-negated-keeps-intercept", "C02", "R2.6", (TT, "        if isinstance(other, NegatedIntercept):\n            return self - Intercept()\n        elif isinstance(other, (Term, GroupSpecificTerm, Intercept)):\n            return self.add_term(other)", "        if isinstance(other, NegatedIntercept):\n            return self\n        elif isinstance(other, (Term, GroupSpecificTerm, Intercept)):\n            return self.add_term(other)"))
+S("c02x-benign-iterms-inline", "C02", (TT, "            products = product([self], other.common_terms)\n            iterms = [\n                Term(*deepcopy(p[0].components), *deepcopy(p[1].components)) for p in products\n            ]\n            return Model(*iterms)\n        else:  # pragma: no cover\n            return NotImplemented\n\n    def __truediv__",
+                                        "            return Model(\n                *[Term(*deepcopy(p[0].components), *deepcopy(p[1].components)) for p in product([self], other.common_terms)]\n            )\n        else:  # pragma: no cover\n            return NotImplemented\n\n    def __truediv__"))
